@@ -554,6 +554,9 @@ def emit_traits(prog, mod):
                     for mname, mm, margs, mret in pt[2]:
                         args = "".join(", a%d: %s" % (i, rs_ty(prog, a)) for i, a in enumerate(margs))
                         ret = "" if mret == ("unit",) else " -> " + rs_ty(prog, mret)
+                        ma = getattr(prog, "trait_mattrs", {}).get((pt[1], mname))
+                        if ma:
+                            out.append("        %s\n" % ma)
                         out.append("        fn %s(&%sself%s)%s;\n" % (mname, "mut " if mm else "", args, ret))
                     out.append("    }\n")
     return "".join(out)
